@@ -418,6 +418,17 @@ fn c06_scenarios(thorough: bool) -> Vec<Scenario> {
     for (name, script) in fault_scripts(1) {
         v.push(mk(&format!("w3_f1_{name}"), 3, None, 3, script, 0, false, 2));
     }
+    // the last data block before the fault (or before the end) is shorter than the block size: a short
+    // read does not end the input, the read after it may still fail
+    for (name, script) in fault_scripts(2) {
+        v.push(mk(&format!("tail9_w1_f2_{name}"), 1, None, 1, script.clone(), 9, false, 2));
+        if thorough || !name.contains('+') {
+            v.push(mk(&format!("tail65_w2_f2_{name}"), 2, None, 2, script, 65, false, 2));
+        }
+    }
+    for (name, script) in fault_scripts(1) {
+        v.push(mk(&format!("tail9_w2_f1_{name}"), 2, None, 2, script, 9, false, 2));
+    }
     // fault-free scripts: termination with every frame exactly once
     for w in 1..=2usize {
         for f in 0..=3usize {
